@@ -154,7 +154,9 @@ def run_case(case, tier):
     extra = []
     if case["kind"] != "file" or case.get("variant"):
         u = rng.random()
-        if u < 0.3 and not multi_:
+        if u < 0.3 and not multi_ and case["kind"] != "ligandcopies":
+            # (not together with the two ligand copies: two residues that differ in the insertion code only compare
+            # equal by label - the known finding - and a partner list that holds one of them refuses the other)
             # insertion-coded twins: several determinants of one group carry the same partner label
             from .c06 import make_twins
             recs, ntw = make_twins(sources.no_water(recs), rng)
